@@ -265,8 +265,14 @@ func validateSignArguments(signer any, signOpts SignerSignOptions) error {
 
 func addUserMetadataToDescriptor(ctx context.Context, desc ocispec.Descriptor, userMetadata map[string]string) (ocispec.Descriptor, error) {
 	logger := log.GetLogger(ctx)
-	if desc.Annotations == nil && len(userMetadata) > 0 {
-		desc.Annotations = map[string]string{}
+	if len(userMetadata) == 0 {
+		return desc, nil
+	}
+
+	// never write into the annotations map of the descriptor handed in
+	annotations := make(map[string]string, len(desc.Annotations)+len(userMetadata))
+	for k, v := range desc.Annotations {
+		annotations[k] = v
 	}
 	for k, v := range userMetadata {
 		logger.Debugf("Adding metadata %v=%v to annotations", k, v)
@@ -278,8 +284,9 @@ func addUserMetadataToDescriptor(ctx context.Context, desc ocispec.Descriptor, u
 		if _, ok := desc.Annotations[k]; ok {
 			return desc, fmt.Errorf("error adding user metadata: metadata key %v is already present in the target artifact", k)
 		}
-		desc.Annotations[k] = v
+		annotations[k] = v
 	}
+	desc.Annotations = annotations
 	return desc, nil
 }
 
